@@ -670,7 +670,7 @@ def run(ctx, replay=None):
     ctx.count("observed:scalar_array-bit-identical", sa.identical)
     # 6. certificates
     t0 = time.time()
-    items = witems + cert_pool(fw, ctx, ctx.n(48, 560), ctx.n(6, 60))
+    items = witems + cert_pool(fw, ctx, ctx.n(40, 480), ctx.n(6, 60))
     items += jac_items(ctx, ctx.n(6, 60))
     certify(ctx, items, "cert")
     ctx.count("wall_s:certificates", round(time.time() - t0, 1))
